@@ -306,6 +306,15 @@ for tag in ('f32', 'f64'):
                ('axis_is_orthogonal_to_u_and_v', 'Implies(dot(%s, %s) >= -R(999)/1000, And(dot(out[1:], %s) == 0, dot(out[1:], %s) == 0))' % (U3, W3, U3, W3))],
       tier='thorough')
 
+    # the antipodal case on its own (3 free variables instead of 6): the per-change tier keeps it, the general contract above is thorough
+    d.shim('glm_quat_from_opposite_vectors_' + tag, 'void', u3i,
+           'auto r = %s(%s, -%s); %s' % (q_t(tag), vec_make(3, tag, 'u'), vec_make(3, tag, 'u'), q_store('r')), outs=[(T, 'out', 4)])
+    R('glm_quat_from_opposite_vectors_' + tag, 'qua(vec3 u, vec3 -u)  ' + QT,
+      requires=[('unit_u', 'norm2(%s) == 1' % U3)],
+      ensures=[('is_a_unit_half_turn', 'And(out[0] == 0, norm2(out) == 1)'),
+               ('takes_u_to_minus_u', 'And(eqv(matvec(qrot_matrix(out), %s), vneg(%s)))' % (U3, U3))],
+      tier='quick')
+
     # ------------------------------------------------------------------ gtx/euler_angles
     def rot(ax, a):
         return 'embed4(rot%s(cos(%s), sin(%s)))' % (ax, a, a)
